@@ -571,6 +571,7 @@ class Real:
         self.factory = yaql.YaqlFactory()
         self.root = yaql.create_context()
         self.engines = {}
+        self.host_opts = {}
 
     def engine(self, t2l, s2l, lim, conv_in, conv_out=True):
         key = (t2l, s2l, lim, conv_in, conv_out)
@@ -582,7 +583,15 @@ class Real:
                 opts = {'yaql.convertInputData': conv_in}
             if lim is not None:
                 opts['yaql.limitIterators'] = lim
-            self.engines[key] = (self.factory.create(options=opts), {})
+            # the host builds all its engines from ONE option dict of its own, which it fills anew for every engine and goes
+            # on changing afterwards ("options cannot be changed after the engine is created": the engine has its own copy)
+            self.host_opts.clear()
+            self.host_opts.update(opts)
+            eng = self.factory.create(options=self.host_opts)
+            self.host_opts.update({'yaql.convertTuplesToLists': not t2l, 'yaql.convertSetsToLists': not s2l,
+                                   'yaql.convertInputData': not conv_in, 'yaql.convertOutputData': not conv_out})
+            self.host_opts.pop('yaql.limitIterators', None)
+            self.engines[key] = (eng, {})
         return self.engines[key]
 
     def evaluate(self, expr, data, t2l, s2l, lim, conv_in, conv_out=True, entry='evaluate'):
@@ -605,6 +614,7 @@ class Real:
                 pass
             opts = dict(eng.options)
             st = base.copy(opts)(expr) if via == 2 else base(expr, options=opts)
+            opts.clear()            # (the host's dict again: emptied once the statement exists)
             return st.evaluate(data=data, context=self.root.create_child_context())
         st = cache.get(expr)
         if st is None:
